@@ -62,6 +62,7 @@ fn main() {
             "C14" => checks::c14::replay(&v),
             "C15" => checks::c15::replay(&v),
             "C16" => checks::c16::replay(&v),
+            "C17" => checks::c17::replay(&v),
             "C09" => checks::c09::replay(&v),
             "C11" => checks::c11::replay(&v),
             _ => {
@@ -91,6 +92,7 @@ fn main() {
         "C14" => checks::c14::run(tier, seed),
         "C15" => checks::c15::run(tier, seed),
         "C16" => checks::c16::run(tier, seed),
+        "C17" => checks::c17::run(tier, seed),
         "C09" => checks::c09::run(tier, seed),
         "C11" => checks::c11::run(tier, seed),
         _ => usage(),
